@@ -29,6 +29,34 @@ Proof.
   apply (located_arr_child _ 0 f0 xs 1); [apply located_self|reflexivity].
 Qed.
 
+(* wrong expected counts (a block whose body / witness arrays do not have the
+   lengths the struct decoder found) are an error for every header form, never
+   a silent shift of which bytes go to which transaction *)
+Theorem C01_count_mismatch : forall f0 h f1 bodies f2 wits aux rest nb nw,
+  let b := Arr f0 (h :: Arr f1 bodies :: Arr f2 wits :: aux :: rest) in
+  wf b -> size_ok b -> nb <> length bodies \/ nw <> length wits ->
+  extract_tx_cbor (enc b) nb nw = None.
+Proof. exact extract_tx_cbor_mismatch. Qed.
+Print Assumptions C01_count_mismatch.
+
+(* C01_tx_stored: a standalone transaction [body, witness_set, ...] of n
+   components in ANY header form, followed by anything: the stored encodings of
+   the transaction, its body and its witness set are the input item and the
+   slices at the true spans of its first two children *)
+Theorem C01_tx_stored : forall exact n f body w rest (trail : bytes),
+  let t := Arr f (body :: w :: rest) in
+  wf t -> (exact = true -> n = S (S (length rest))) -> (exact = false -> n <= S (S (length rest))) ->
+  decode_tx exact n (enc t ++ trail)%list = Some (enc t, enc body, enc w) /\
+  slice 0 (length (enc t)) (enc t ++ trail)%list = enc t /\
+  slice (child_off f (body :: w :: rest) 0) (length (enc body)) (enc t) = enc body /\
+  slice (child_off f (body :: w :: rest) 1) (length (enc w)) (enc t) = enc w.
+Proof.
+  intros exact n f body w rest trail t Hw Hn Hn'. split; [apply decode_tx_enc; assumption|]. split.
+  - apply (slice_app [] (enc t) trail).
+  - split; apply located_slice; apply (located_arr_child _ 0 f _ _ _ (located_self _)); reflexivity.
+Qed.
+Print Assumptions C01_tx_stored.
+
 (* C01_hash_binds: identifiers are the hash of exactly those bytes, for every hash function *)
 Section hash.
   Variable H : bytes -> bytes.
